@@ -29,6 +29,7 @@ type memConn struct {
 	// deadlock detection: both ends blocked in Read with nothing in flight
 	waiting    *int
 	deadlocked *bool
+	detect     *bool // opt-in (two-session runs only): an idle link is normal for other users of the pipe
 }
 
 // edit alters the byte at one absolute offset of a stream: kind 's' substitute, 'd' delete, 'i' insert val before it.
@@ -54,6 +55,13 @@ func (c *memConn) Altered() []byte {
 		return append([]byte(nil), (*c.sent)...)
 	}
 	return append([]byte(nil), (*c.altered)...)
+}
+
+// DetectDeadlock makes the pipe treat "both ends blocked in Read, nothing in flight" as a dead link.
+func (c *memConn) DetectDeadlock() {
+	c.mu.Lock()
+	*c.detect = true
+	c.mu.Unlock()
 }
 
 // Deadlocked reports whether both ends ended up waiting for each other.
@@ -89,9 +97,9 @@ func newMemPipe(segA, segB func() int) (*memConn, *memConn) {
 	ba := &memBuf{limit: -1}
 	closed := false
 	sa, sb := []byte{}, []byte{}
-	waiting, dead := 0, false
-	a := &memConn{mu: mu, cond: cond, in: ba, out: ab, closed: &closed, name: "A", seg: segA, sent: &sa, waiting: &waiting, deadlocked: &dead}
-	b := &memConn{mu: mu, cond: cond, in: ab, out: ba, closed: &closed, name: "B", seg: segB, sent: &sb, waiting: &waiting, deadlocked: &dead}
+	waiting, dead, detect := 0, false, false
+	a := &memConn{mu: mu, cond: cond, in: ba, out: ab, closed: &closed, name: "A", seg: segA, sent: &sa, waiting: &waiting, deadlocked: &dead, detect: &detect}
+	b := &memConn{mu: mu, cond: cond, in: ab, out: ba, closed: &closed, name: "B", seg: segB, sent: &sb, waiting: &waiting, deadlocked: &dead, detect: &detect}
 	return a, b
 }
 
@@ -136,7 +144,7 @@ func (c *memConn) Read(p []byte) (int, error) {
 			return 0, io.EOF
 		}
 		*c.waiting++
-		if *c.waiting >= 2 && len(c.out.data) == 0 && !c.out.eof {
+		if *c.detect && *c.waiting >= 2 && len(c.out.data) == 0 && !c.out.eof {
 			// both sessions wait for bytes and nothing is in flight: the exchange is stalled for good.
 			// Treated as the link timing out (both ends see it dead).
 			*c.deadlocked = true
